@@ -13,7 +13,8 @@ EXTENDS JaqalSem, Json
 
 CONSTANTS Headers,      \* set of [lets, regs, imports, natives]: header variants, one chosen initially
           MacroDefs,    \* Seq of [v, params, kinds (subset of {"seq","par"}), gates (set of gate stmts), mopen (openers), max]
-          TopGates,     \* set of gate statements usable in the main body
+          TopGates,     \* set of gate statements usable inside blocks of the main body
+          OuterGates,   \* set of gate statements usable at the top level of the main body
           Openers,      \* set of [k:"seq"] | [k:"par"] | [k:"loop", count, par] | [k:"sub", iters]
           MaxNodes,     \* gates + opened blocks in the main body
           MaxDepth      \* open frames, top-level frame included
@@ -58,7 +59,7 @@ TopF == st.stk[Depth]
 InMacro == Depth >= 2 /\ st.stk[2].wrap.k = "macro"
 MacrosDone == st.mi > Len(MacroDefs)
 Limit == IF InMacro THEN MacroDefs[st.mi].max ELSE MaxNodes
-GateSet == IF InMacro THEN MacroDefs[st.mi].gates ELSE TopGates
+GateSet == IF InMacro THEN MacroDefs[st.mi].gates ELSE IF Depth = 1 THEN OuterGates ELSE TopGates
 EnclosedBy(kinds) == \E d \in 1..Depth : st.stk[d].kind \in kinds
 
 LegalOpen(o) ==
